@@ -153,31 +153,43 @@ impl Stream for RtrListener {
         ctx: &mut Context<'_>,
     ) -> Poll<Option<Self::Item>> {
         let this = self.project();
-        if let Some(backoff) = this.backoff.as_mut() {
-            if matches!(backoff.as_mut().poll(ctx), Poll::Pending) {
-                return Poll::Pending;
-            }
-            *this.backoff = None;
-        }
-        match this.tcp.poll_accept(ctx) {
-            Poll::Ready(Ok((sock, addr))) => {
-                match RtrStream::new(
-                    sock, addr,
-                    this.tls.as_ref(), *this.keepalive,
-                    this.server_metrics,
-                ) {
-                    Ok(stream) => Poll::Ready(Some(Ok(stream))),
-                    Err(_) => Poll::Pending,
+        loop {
+            if let Some(backoff) = this.backoff.as_mut() {
+                if matches!(backoff.as_mut().poll(ctx), Poll::Pending) {
+                    return Poll::Pending;
                 }
+                *this.backoff = None;
             }
-            Poll::Ready(Err(err)) => {
-                warn!("Accept error in RTR server {}: {}", this.addr, err);
-                *this.backoff = Some(Box::pin(
-                    tokio::time::sleep(Duration::from_millis(100))
-                ));
-                Poll::Pending
+            match this.tcp.poll_accept(ctx) {
+                Poll::Ready(Ok((sock, addr))) => {
+                    match RtrStream::new(
+                        sock, addr,
+                        this.tls.as_ref(), *this.keepalive,
+                        this.server_metrics,
+                    ) {
+                        Ok(stream) => return Poll::Ready(Some(Ok(stream))),
+                        Err(_) => {
+                            // The connection has been dropped. Go on with
+                            // the next one: no waker has been registered
+                            // at this point, so returning `Poll::Pending`
+                            // would put the listener to sleep forever.
+                            continue
+                        }
+                    }
+                }
+                Poll::Ready(Err(err)) => {
+                    warn!(
+                        "Accept error in RTR server {}: {}", this.addr, err
+                    );
+                    *this.backoff = Some(Box::pin(
+                        tokio::time::sleep(Duration::from_millis(100))
+                    ));
+                    // Poll the sleep at the top of the loop so that it
+                    // registers our waker.
+                    continue
+                }
+                Poll::Pending => return Poll::Pending,
             }
-            Poll::Pending => Poll::Pending,
         }
     }
 }
